@@ -21,7 +21,7 @@ KIT_L = [
     'nbdime.diffing.lcs.diff_from_lcs',
     'nbdime.diffing.seq_bruteforce.bruteforce_compare_grid', 'nbdime.diffing.seq_bruteforce.bruteforce_llcs_grid',
     'nbdime.diffing.seq_bruteforce.bruteforce_lcs_indices', 'nbdime.diffing.seq_bruteforce.diff_sequence_bruteforce',
-    'nbdime.diff_utils.count_consumed_symbols', 'nbdime.diffing.sequences.diff_sequence',
+    'nbdime.diff_utils.count_consumed_symbols', 'nbdime.diffing.sequences.diff_sequence', 'nbdime.diffing.generic._lookup_predicates',
     'nbdime.diffing.generic.diff_lists',
     'nbdime.diffing.seq_bruteforce.bruteforce_compute_snakes', 'nbdime.diffing.snakes.compute_snakes',
     'nbdime.diffing.snakes.compute_snakes_multilevel', 'nbdime.diffing.snakes.compute_snakes_multilevel#rect',
